@@ -201,7 +201,8 @@ func (m *model) acceptUpdateTier1(e event) bool {
 
 // tier 2 (linear honest history, prevs name the latest version of every DID, honest signing time): the key is a
 // capabilityInvocation key of an active controller of exactly the latest version (the document itself if it names
-// no controller or names itself).
+// no controller or names itself; a controller that names controllers of its own is active only if one of those is).
+// Also applied when the signing time equals / is one second after the signing time of the newest accepted event.
 func (m *model) acceptUpdateTier2(e event) bool {
 	t := e.Doc.DID
 	if wf, _ := wellFormed(e.Doc); !wf || len(m.versions[t]) == 0 {
@@ -209,6 +210,32 @@ func (m *model) acceptUpdateTier2(e event) bool {
 	}
 	for _, leaf := range m.leaves(t) {
 		if leaf.capInv()[e.SignKey] {
+			return true
+		}
+	}
+	return false
+}
+
+// active: the latest version of DID d is not deactivated and, when it names controllers, at least one of them is
+// active (itself with a capabilityInvocation key of its own, or another active DID), within the depth limit of 5.
+func (m *model) active(d int, depth int) bool {
+	n := len(m.versions[d])
+	if n == 0 || m.versions[d][n-1].deactivated() {
+		return false
+	}
+	w := m.versions[d][n-1]
+	if len(w.Doc.Ctrl) == 0 {
+		return true
+	}
+	if depth >= 5 {
+		return false
+	}
+	for _, c := range w.Doc.Ctrl {
+		if c == d {
+			if len(w.capInv()) > 0 {
+				return true
+			}
+		} else if m.active(c, depth+1) {
 			return true
 		}
 	}
@@ -224,8 +251,8 @@ func (m *model) leaves(t int) []mver {
 	for _, c := range v.Doc.Ctrl {
 		if c == t {
 			out = append(out, v)
-		} else if n := len(m.versions[c]); n > 0 && !m.versions[c][n-1].deactivated() {
-			out = append(out, m.versions[c][n-1])
+		} else if m.active(c, 1) {
+			out = append(out, m.versions[c][len(m.versions[c])-1])
 		}
 	}
 	return out
